@@ -388,6 +388,10 @@ def diversify(indices, distances, data, dist, rng_state, prune_probability=1.0):
 
     for i in numba.prange(indices.shape[0]):
 
+        # private generator state for this row: parallel iterations must not
+        # share (and race on) the index's state
+        local_rng_state = rng_state + i
+
         new_indices = [indices[i, 0]]
         new_distances = [distances[i, 0]]
         for j in range(1, indices.shape[1]):
@@ -401,7 +405,7 @@ def diversify(indices, distances, data, dist, rng_state, prune_probability=1.0):
 
                 d = dist(data[indices[i, j]], data[c])
                 if new_distances[k] > FLOAT32_EPS and d < distances[i, j]:
-                    if tau_rand(rng_state) < prune_probability:
+                    if tau_rand(local_rng_state) < prune_probability:
                         flag = False
                         break
 
@@ -434,6 +438,10 @@ def diversify_csr(
 
     for i in numba.prange(n_nodes):
 
+        # private generator state for this row: parallel iterations must not
+        # share (and race on) the index's state
+        local_rng_state = rng_state + i
+
         current_indices = graph_indices[graph_indptr[i] : graph_indptr[i + 1]]
         current_data = graph_data[graph_indptr[i] : graph_indptr[i + 1]]
 
@@ -450,7 +458,7 @@ def diversify_csr(
                         source_data[current_indices[j]], source_data[current_indices[l]]
                     )
                     if current_data[l] > FLOAT32_EPS and d < current_data[j]:
-                        if tau_rand(rng_state) < prune_probability:
+                        if tau_rand(local_rng_state) < prune_probability:
                             retained[j] = 0
                             break
 
